@@ -11,6 +11,13 @@ import Proofs.Lemmas.C19Merge
 import Proofs.Lemmas.C19Split
 import Proofs.Lemmas.C19Rel
 import Proofs.Lemmas.C19Fmt
+import Proofs.Lemmas.C19Wf
+import Proofs.Lemmas.C19List
+import Proofs.Lemmas.C19Coalesce
+import Proofs.Lemmas.C19Round3
+import Proofs.Lemmas.C19Lex
+import Proofs.Lemmas.C19Store
+import Proofs.Lemmas.C19Clean
 
 namespace C19
 open Storage.Query Analysis.Quote
@@ -198,8 +205,7 @@ open Storage.Fmt in
 /-- **printer_reader_roundtrip_partial**: the two kinds of configuration line the Printer writes are
 read back as written — `key: value` for a non-empty value that does not start with a blank or tab,
 `key:` as the removal of the key.
-Gap: the statement for whole result streams (labels and content lines of every result survive
-print → read, for any order of the results) is validated by the correspondence run only. -/
+(Line-level lemma; the statement for whole result streams is `printer_reader_roundtrip` below.) -/
 theorem printer_reader_roundtrip_partial (k v : Bytes) (hk : validKey k) :
     ((∃ c r, v = c :: r ∧ isBlank c = false) →
       parseKeyValueLine (k ++ [cColon, cSpace] ++ v) = some (k, v)) ∧
@@ -232,9 +238,8 @@ open Storage.Fmt in
 /-- **coalesce_spec_partial**: a result with the same labels as the previous one (`SameLabels`) is
 appended to the previous record and indexes nothing; any other result starts a new record whose
 content is the result printed by a fresh Printer and takes the next record id.
-Gap: (i) that the number of stored records equals the number of runs of identical-label results
-needs "no flush inside a run" (the 990-argument threshold forgets `lastResult`, finding N9);
-(ii) `SameLabels` is not label equality when values are empty (`sameLabels_counterexample`). -/
+(Step-level lemma; the run-level statement is `coalesce_spec`, the flush boundary `flush_boundary`
+below. `SameLabels` is not label equality when values are empty: `sameLabels_counterexample`.) -/
 theorem coalesce_spec_partial (u : Upload) (r : Result) :
     (∀ last, u.lastResult = some last → last.sameLabels r = true →
       (u.insertRecord r).records = appendToLast u.records (r.content ++ [nl]) ∧
@@ -282,8 +287,7 @@ theorem filter_flatMap_length (db : DB) (keys : List RKey) (id : Bytes) :
 number of records the same query selects (`selectRecords`, characterised by `query_result_spec`)
 that belong to the upload; uploads without such a record are left out; the rows are those of
 `sortNewer` (insertion by `Day DESC, Seq DESC, UploadID DESC`) cut at a positive limit.
-Gap: that `sortNewer` yields a sorted permutation is not proved (validated by the correspondence
-run, including sequence numbers above 9 and day changes). -/
+(Counting lemma; sortedness and permutation are added in `listing_spec` below.) -/
 theorem listing_spec_partial (db : DB) (q : Bytes) (limit : Int) (rows : List (Bytes × Nat))
     (h : listUploads db q limit = .ok rows) :
     ∃ sqls, parseQuery q = .ok sqls ∧
@@ -309,5 +313,294 @@ theorem listing_spec_partial (db : DB) (q : Bytes) (limit : Int) (rows : List (B
         rw [filter_flatMap_length]
       simp only [selectRecords]
       rw [hm]
+
+
+/-! ### full-strength statements (second round) -/
+
+open Storage.Fmt in
+/-- **printer_reader_roundtrip** (whole streams): for every sequence of results whose labels are a
+sorted map with Reader-acceptable keys and values that are non-empty, do not start with a blank or
+tab, hold no line feed and do not end in CR (the complement of N7's class), and whose content lines
+are benchmark lines without line feed or trailing CR: what one Printer writes for the sequence, a
+fresh Reader reads back as the same sequence of (labels, content line) — in any order of the
+results, with any label histories (keys added, changed, removed between results).
+(Name labels are a function of the content line; line numbers are not preserved.) -/
+theorem printer_reader_roundtrip (rs : List Result) (hr : ∀ r ∈ rs, CleanResult r) :
+    (readAll (printAll [] rs)).map (fun r => (r.labels, r.content)) =
+      rs.map (fun r => (r.labels, r.content)) := by
+  unfold readAll Reader.all
+  rw [scan_printAll rs hr]
+  exact read_all_lines rs [] {} _ ⟨by simp [StrictSorted], by simp, by simp⟩ hr rfl rfl
+    (Nat.lt_succ_of_le (allLines_length rs []))
+
+open Storage.Fmt in
+/-- a non-trivial clean result: labels `k=v`, `pkg=a b`, line `BenchmarkF/x-4 1 2 ns/op` -/
+def sampleResult : Result :=
+  { labels := [([107], [118]), ([112, 107, 103], [97, 32, 98])], nameLabels := none, lineNum := 0,
+    content := [66, 101, 110, 99, 104, 109, 97, 114, 107, 70, 47, 120, 45, 52, 32, 49, 32, 50, 32, 110, 115, 47, 111, 112] }
+
+open Storage.Fmt in
+example : CleanResult sampleResult := by
+  refine ⟨⟨by simp [StrictSorted, sampleResult, blt], ?_, ?_⟩, ⟨[70, 47, 120, 45, 52], by decide +kernel⟩, by decide +kernel, by decide +kernel⟩
+  · intro kv hkv
+    simp only [sampleResult, List.mem_cons, List.not_mem_nil, or_false] at hkv
+    rcases hkv with rfl | rfl
+    · exact ⟨⟨107, [], rfl, by decide⟩, by decide⟩
+    · exact ⟨⟨112, [107, 103], rfl, by decide⟩, by decide⟩
+  · intro kv hkv
+    simp only [sampleResult, List.mem_cons, List.not_mem_nil, or_false] at hkv
+    rcases hkv with rfl | rfl
+    · exact ⟨⟨118, [], rfl, by decide⟩, by decide, by decide⟩
+    · exact ⟨⟨97, [32, 98], rfl, by decide⟩, by decide, by decide⟩
+
+open Storage.Fmt in
+/-- **stored_record_roundtrip**: the content `InsertRecord` stores for a run of results (first one
+printed by a fresh Printer, bare lines after it) is decoded by `db.Query`'s fresh Reader into one
+result per line, each with the labels of the first result and its own line -/
+theorem stored_record_roundtrip (h : Result) (t : List Result) (hh : CleanResult h)
+    (ht : ∀ r ∈ t, CleanLine r.content) :
+    (readAll (groupContent (h :: t))).map (fun r => (r.labels, r.content)) =
+      (h :: t).map fun r => (h.labels, r.content) := by
+  have := read_stored h (t.map (·.content)) hh (by
+    intro x hx
+    obtain ⟨r, hr, rfl⟩ := List.mem_map.mp hx
+    exact ht r hr)
+  simp only [groupContent, List.map_cons]
+  rw [List.flatMap_map] at this
+  rw [this]
+  simp [List.map_map]
+
+open Storage.Fmt in
+/-- **coalesce_spec** (records = runs, between flushes): from a state whose open record does not
+take the first result, and while the label queue stays below the 990-argument threshold, inserting
+`rs` stores exactly one record per run — a run being a result followed by the results that
+`SameLabels` it — with consecutive record ids, each record holding the first result printed with all
+its labels and then the bare lines of the rest of the run. -/
+theorem coalesce_spec (rs : List Result) (u : Upload)
+    (hhead : ∀ l r, u.lastResult = some l → rs.head? = some r → l.sameLabels r = false)
+    (hargs : u.labelArgs + 4 * headLabels (runs rs.length rs) ≤ 990) :
+    (rs.foldl Upload.insertRecord u).records = u.records ++ rowsOf u.id u.recordid (runs rs.length rs) ∧
+    (rs.foldl Upload.insertRecord u).recordid = u.recordid + (runs rs.length rs).length :=
+  let h := insert_runs rs.length rs (Nat.le_refl _) u hhead hargs
+  ⟨h.1, h.2.1⟩
+
+open Storage.Fmt in
+/-- **flush_boundary** (what happens at a flush, the boundary of finding N9): when the queue reaches
+990 arguments while the labels of a new record `h` are queued, the record itself is stored as usual
+but the coalescing state is forgotten; the next result starts a new record even if it has the very
+same labels. Together with `coalesce_spec` (which applies again from the state after the flush, whose
+`lastResult` is `none`): the stored records are the runs of the result sequence split after every
+result whose insertion flushed. -/
+theorem flush_boundary (u : Upload) (h r : Result) (hn : nLabels h ≠ 0)
+    (hf : u.labelArgs + 4 * (nLabels h - 1) ≥ 990) :
+    (u.insertNew h).lastResult = none ∧
+    (u.insertNew h).records = u.records ++ [⟨u.id, u.recordid, (printResult [] h).1⟩] ∧
+    ((u.insertNew h).insertRecord r).records =
+      u.records ++ [⟨u.id, u.recordid, (printResult [] h).1⟩, ⟨u.id, u.recordid + 1, (printResult [] r).1⟩] := by
+  have hl := insertNew_flush u h hn hf
+  obtain ⟨hid, hrid, hrec, _⟩ := insertNew_spec u h
+  refine ⟨hl, hrec, ?_⟩
+  have := (coalesce_spec_partial (u.insertNew h) r).2 (Or.inl hl)
+  rw [this.1, hrec, hid, hrid]
+  simp
+
+open Storage.Fmt in
+/-- without a flush the same second result would have been appended to the record of `h` -/
+theorem no_flush_coalesces (u : Upload) (h r : Result) (hs : h.sameLabels r = true)
+    (hnf : u.labelArgs + 4 * nLabels h ≤ 990) :
+    ((u.insertNew h).insertRecord r).records =
+      u.records ++ [⟨u.id, u.recordid, (printResult [] h).1 ++ (r.content ++ [nl])⟩] := by
+  have hl := (insertNew_noflush u h hnf).1
+  obtain ⟨_, _, hrec, _⟩ := insertNew_spec u h
+  have := (coalesce_spec_partial (u.insertNew h) r).1 h hl hs
+  rw [this.1, hrec, appendToLast_snoc]
+
+/-- **listing_spec**: for an accepted query the listing is `full` cut at a positive limit, where
+`full` (i) is a permutation of the uploads that own at least one record the query selects, each
+with the number of such records (`selectRecords`, characterised by `query_result_spec`), and
+(ii) is sorted newest first: no later row has a greater (Day, Seq, UploadID) — Day and UploadID
+compared bytewise, Seq numerically — than an earlier one. -/
+theorem listing_spec (db : DB) (q : Bytes) (limit : Int) (rows : List (Bytes × Nat))
+    (h : listUploads db q limit = .ok rows) :
+    ∃ sqls full, parseQuery q = .ok sqls ∧
+      full.Perm ((db.uploads.map fun u =>
+        (u, ((selectRecords db sqls).filter (·.upload == u.id)).length)).filter (·.2 > 0)) ∧
+      SortedNewer full ∧
+      rows = (if limit > 0 then full.take limit.toNat else full).map fun p => (p.1.id, p.2) := by
+  obtain ⟨sqls, hp, hrows⟩ := listing_spec_partial db q limit rows h
+  exact ⟨sqls, _, hp, sortNewer_perm _, sortNewer_sorted _, hrows⟩
+
+/-- with distinct upload ids the order is strict: of two different listed uploads exactly one is
+newer, so `SortedNewer` fixes the order completely -/
+theorem listing_order_total (a b : UploadRow) (hid : a.id ≠ b.id) :
+    (newer a b = true ∧ newer b a = false) ∨ (newer b a = true ∧ newer a b = false) := by
+  rcases newer_total a b hid with h | h
+  · exact Or.inl ⟨h, newer_asymm _ _ h⟩
+  · exact Or.inr ⟨h, newer_asymm _ _ h⟩
+
+open Storage.Fmt in
+/-- **wf_preserved**: `processUpload` (successful or not) maps a state satisfying the invariant
+(`WF`, distinct upload ids, every record owned by a registered upload) to such a state -/
+theorem wf_preserved (db : DB) (h : Inv db) (day user : Bytes) (files : List FileIn) :
+    Inv (processUpload db day user files).1 :=
+  processUpload_inv db h day user files
+
+open Storage.Fmt in
+/-- every state reachable from the empty database by upload requests satisfies `WF`, so
+`query_result_spec` (given `NoEmptyValues`) and `listing_spec` apply to it -/
+theorem reachable_wf (reqs : List (Bytes × Bytes × List FileIn)) :
+    WF (reqs.foldl (fun db q => (processUpload db q.1 q.2.1 q.2.2).1) {}) := by
+  suffices h : ∀ db, Inv db → Inv (reqs.foldl (fun db q => (processUpload db q.1 q.2.1 q.2.2).1) db) from
+    (h {} inv_empty).wf
+  induction reqs with
+  | nil => intro db h; exact h
+  | cons q qs ih => intro db h; exact ih _ (processUpload_inv db h q.1 q.2.1 q.2.2)
+
+
+open Storage.Fmt Storage.Lex in
+/-- **lex_ascii_is_model**: the correspondence driver runs the `Lex`-parameterised copy of the
+model with Go's Unicode classification (`Lex.unicode uc`, the table dumped from the toolchain);
+instantiated with the ASCII primitives that copy IS the model of the theorems above — for uploads,
+`db.Query`, `Client.Query` and the listing alike. -/
+theorem lex_ascii_is_model (db : DB) (q : Bytes) :
+    (∀ day user files, processUploadL Lex.ascii db day user files = processUpload db day user files) ∧
+    dbQueryL Lex.ascii db q = dbQuery db q ∧
+    clientQueryL Lex.ascii db q = clientQuery db q ∧
+    queryRecordsL Lex.ascii db q = queryRecords db q ∧
+    (∀ limit, listUploadsL Lex.ascii db q limit = listUploads db q limit) :=
+  ⟨processUploadL_ascii db, dbQueryL_ascii db q, clientQueryL_ascii db q, queryRecordsL_ascii db q,
+   listUploadsL_ascii db q⟩
+
+
+/-! ### end to end: what is indexed is what comes back -/
+
+open Storage.Fmt in
+/-- database states reachable from the empty database by upload requests whose files read (by the
+server's Reader, with the server's labels added) into clean results — i.e. outside the class of
+finding N7 -/
+inductive Reach : DB → Prop
+  | empty : Reach {}
+  | upload (db : DB) (day user : Bytes) (files : List FileIn) : Reach db →
+      UploadP CleanResult (day ++ [46] ++ natToDec (nextSeq db day)) user files →
+      Reach (processUpload db day user files).1
+
+open Storage.Fmt in
+theorem reach_inv (db : DB) (h : Reach db) : Inv db ∧ DBStands CleanResult db := by
+  induction h with
+  | empty => exact ⟨inv_empty, by intro rec hrec; cases hrec⟩
+  | upload db day user files _ hP ih =>
+    exact ⟨processUpload_inv db ih.1 day user files,
+      processUpload_stands CleanResult db ih.1 ih.2 day user files hP⟩
+
+open Storage.Fmt in
+/-- **stored_results_come_back**: in every reachable state, every stored record stands for a run
+`hd :: t` of uploaded results: its rows in the label index are exactly the labels (file, server and
+name-derived) of `hd`, and its content reads back as one result per line of the run, each with its
+original line and with the labels of `hd` intact. -/
+theorem stored_results_come_back (db : DB) (h : Reach db) (rec : RecordRow) (hrec : rec ∈ db.records) :
+    ∃ hd t, CleanResult hd ∧ (∀ r ∈ t, CleanResult r ∧ hd.sameLabels r = true) ∧
+      db.labels.filter (fun l => l.rkey == rec.rkey) = rowsFor rec.upload rec.rid hd ∧
+      (readAll rec.content).map (fun r => (r.labels, r.content)) =
+        (hd :: t).map fun r => (hd.labels, r.content) := by
+  obtain ⟨hd, t, a, b, c, d⟩ := (reach_inv db h).2 rec hrec
+  refine ⟨hd, t, a, b, d, ?_⟩
+  rw [c]
+  exact stored_record_roundtrip hd t a (fun r hr => ⟨(b r hr).1.bench, (b r hr).1.noNl, (b r hr).1.noCr⟩)
+
+open Storage.Fmt in
+/-- **db_query_spec**: `db.Query` on a reachable state without empty label values returns the
+results of exactly the stored records whose indexed labels satisfy every term of the query, each
+record once, every result with its line and labels intact. -/
+theorem db_query_spec (db : DB) (hreach : Reach db) (hne : NoEmptyValues db) (q : Bytes)
+    (rs : List Result) (h : dbQuery db q = .ok rs) :
+    ∃ recs : List RecordRow, recs.Nodup ∧
+      (∀ r, r ∈ recs ↔ (r ∈ db.records ∧
+        ∀ w ∈ splitWords q, ∃ p, parseWord w = .ok p ∧ termSat (labelRel db r.rkey) p)) ∧
+      rs = recs.flatMap (fun r => readAll r.content) ∧
+      ∀ rec ∈ recs, ∃ hd t, CleanResult hd ∧ (∀ r ∈ t, CleanResult r ∧ hd.sameLabels r = true) ∧
+        db.labels.filter (fun l => l.rkey == rec.rkey) = rowsFor rec.upload rec.rid hd ∧
+        (readAll rec.content).map (fun r => (r.labels, r.content)) =
+          (hd :: t).map fun r => (hd.labels, r.content) := by
+  unfold dbQuery at h
+  cases hq : queryRecords db q with
+  | error e => simp only [hq, bind, Except.bind] at h; cases h
+  | ok recs =>
+    simp only [hq, bind, Except.bind, pure, Except.pure, Except.ok.injEq] at h
+    have hspec := query_result_spec db (reach_inv db hreach).1.wf hne q recs hq
+    refine ⟨recs, hspec.1, hspec.2, h.symm, ?_⟩
+    intro rec hrec
+    exact stored_results_come_back db hreach rec ((hspec.2 rec).mp hrec).1
+
+open Storage.Fmt in
+/-- **client_query_spec**: what `db.Query` yields passes through the server's Printer and the
+client's Reader unchanged: `Client.Query` returns the same sequence of (labels, line). -/
+theorem client_query_spec (db : DB) (hreach : Reach db) (q : Bytes) (rs : List Result)
+    (h : dbQuery db q = .ok rs) :
+    ∃ cs, clientQuery db q = .ok cs ∧
+      cs.map (fun r => (r.labels, r.content)) = rs.map (fun r => (r.labels, r.content)) := by
+  have hclean : ∀ r ∈ rs, CleanResult r := by
+    unfold dbQuery at h
+    cases hq : queryRecords db q with
+    | error e => simp only [hq, bind, Except.bind] at h; cases h
+    | ok recs =>
+      simp only [hq, bind, Except.bind, pure, Except.pure, Except.ok.injEq] at h
+      subst h
+      intro r hr
+      obtain ⟨rec, hrec, hrr⟩ := List.mem_flatMap.mp hr
+      -- the selected records are stored records
+      have hsub : rec ∈ db.records := by
+        unfold queryRecords at hq
+        cases hp : parseQuery q with
+        | error e => simp only [hp, bind, Except.bind] at hq; cases hq
+        | ok sqls =>
+          simp only [hp, bind, Except.bind, pure, Except.pure, Except.ok.injEq] at hq
+          subst hq
+          exact (((selectRecords_spec db (reach_inv db hreach).1.wf sqls).2 rec).mp hrec).1
+      obtain ⟨hd, t, a, b, _, e⟩ := stored_results_come_back db hreach rec hsub
+      have hm : (r.labels, r.content) ∈ (hd :: t).map fun x => (hd.labels, x.content) := by
+        rw [← e]; exact List.mem_map.mpr ⟨r, hrr, rfl⟩
+      obtain ⟨x, hx, hxe⟩ := List.mem_map.mp hm
+      simp only [Prod.mk.injEq] at hxe
+      have hcx : CleanResult x := by
+        rcases List.mem_cons.mp hx with rfl | hx
+        · exact a
+        · exact (b x hx).1
+      exact ⟨hxe.1 ▸ a.labels, hxe.2 ▸ hcx.bench, hxe.2 ▸ hcx.noNl, hxe.2 ▸ hcx.noCr⟩
+  refine ⟨readAll (printAll [] rs), ?_, printer_reader_roundtrip rs hclean⟩
+  unfold clientQuery
+  simp only [h, bind, Except.bind, pure, Except.pure]
+
+
+open Storage.Fmt in
+/-- the complement of finding N7 at the level of inputs: the labels the server adds (upload id,
+part, time, file name, user) are good values, and no line of a file still ends in CR once its line
+terminator is removed (no `CR CR LF`) -/
+def CleanUpload (id user : Bytes) (files : List FileIn) : Prop :=
+  ∀ (i : Nat) (f : FileIn), f ∈ files →
+    GoodLabels (metaLabels id i user f.name) ∧ ∀ line ∈ scanLines f.content, line.getLast? ≠ some cr
+
+open Storage.Fmt in
+/-- **clean_upload_reads_clean**: such an upload is read by the server into clean results — arbitrary
+file contents otherwise (any keys, values, junk lines, label histories) -/
+theorem clean_upload_reads_clean (id user : Bytes) (files : List FileIn)
+    (h : CleanUpload id user files) : UploadP CleanResult id user files :=
+  fun i f hf => reader_results_clean _ _ (h i f hf).1 (h i f hf).2
+
+open Storage.Fmt in
+/-- so every sequence of clean uploads leads to a state to which `stored_results_come_back`,
+`db_query_spec` and `client_query_spec` apply -/
+theorem reach_of_clean_uploads (reqs : List (Bytes × Bytes × List FileIn))
+    (h : ∀ (db : DB) (q : Bytes × Bytes × List FileIn), q ∈ reqs →
+      CleanUpload (q.1 ++ [46] ++ natToDec (nextSeq db q.1)) q.2.1 q.2.2) :
+    Reach (reqs.foldl (fun db q => (processUpload db q.1 q.2.1 q.2.2).1) {}) := by
+  suffices hs : ∀ db, Reach db → Reach (reqs.foldl (fun db q => (processUpload db q.1 q.2.1 q.2.2).1) db) from
+    hs {} Reach.empty
+  induction reqs with
+  | nil => intro db hdb; exact hdb
+  | cons q qs ih =>
+    intro db hdb
+    simp only [List.foldl_cons]
+    exact ih (fun db' q' hq' => h db' q' (by simp [hq'])) _
+      (Reach.upload db q.1 q.2.1 q.2.2 hdb (clean_upload_reads_clean _ _ _ (h db q (by simp))))
 
 end C19
